@@ -75,7 +75,7 @@ pub fn main(args: &[String]) {
             Avoid::default()
         };
         let m = Gen::valid_module_avoiding(&mut rng, prof, avoid);
-        extra.push(if i % 3 != 0 { Some(crate::extras::extras(&mut rng, &m, prof.option)) } else { None });
+        extra.push(if i % 3 != 0 { Some(crate::extras::extras_with(&mut rng, &m, prof.option, Some(i / 5 + i))) } else { None });
         mods.push((target.to_string(), unsafe_refs, m));
     }
     let lines: Vec<String> = mods.iter().map(|(t, _, m)| format!("(c15 {t} {})", m.sexp_decls())).collect();
